@@ -2,6 +2,7 @@ package t1
 
 import (
 	"fmt"
+	"reflect"
 	"strings"
 	"testing"
 
@@ -349,6 +350,9 @@ func TestC04_DeepCopy(t *testing.T) {
 		// expected observation of the copy: the model minus what F50 (if active) dropped
 		mcp := model.ObserveNorm(v, cp)
 		shared := sharedMem(cp, orig)
+		if p, ok := shared["map"]; ok {
+			rt.Fatalf("DeepCopy(t) returns a tree whose list map at %s is the very map object of t (variant %s)\ntree:\n%s", p, v.Name, m.Dump())
+		}
 		target, other, want := cp, orig, m
 		if side == "original" {
 			target, other, want = orig, cp, mcp
@@ -399,6 +403,23 @@ func TestC04_Merge(t *testing.T) {
 			opts = append(opts, &ygot.MergeOverwriteExistingFields{})
 		}
 		ga, gb := model.Build(a), model.Build(b)
+		// MergeEmptyMaps: empty non-nil maps of the inputs are carried into the result (an empty and an
+		// absent list are the same data, so the model does not change)
+		emptyMaps := rapid.IntRange(0, 3).Draw(rt, "mergeEmptyMaps") == 0
+		if emptyMaps {
+			opts = append(opts, &ygot.MergeEmptyMaps{})
+			for _, g := range []ygot.GoStruct{ga, gb} {
+				for _, n := range goNodes(g) {
+					sv := n.ptr.Elem()
+					for i := 0; i < sv.NumField(); i++ {
+						if fv := sv.Field(i); fv.Kind() == reflect.Map && fv.IsNil() && rapid.IntRange(0, 2).Draw(rt, "emptymap") == 0 {
+							fv.Set(reflect.MakeMap(fv.Type()))
+							classes = append(classes, "c04:empty-map-input")
+						}
+					}
+				}
+			}
+		}
 		r, err := ygot.MergeStructs(ga, gb, opts...)
 		if err != nil {
 			classes = append(classes, "merge:failed")
@@ -428,6 +449,16 @@ func TestC04_Merge(t *testing.T) {
 		ex := newExcuser(rec)
 		mr := model.ObserveNorm(v, r)
 		shA, shB := sharedMem(r, ga), sharedMem(r, gb)
+		// a Go map shared between the result and an input is shared mutable memory whatever it holds at
+		// the moment: adding a list entry on one side adds it on the other
+		for _, sh := range []struct {
+			n string
+			m map[string]string
+		}{{"a", shA}, {"b", shB}} {
+			if p, ok := sh.m["map"]; ok {
+				rt.Fatalf("MergeStructs(a,b) returns a tree whose list map at %s is the very map object of input %s (emptyMaps option: %v)\n%s", p, sh.n, emptyMaps, ctx())
+			}
+		}
 		var desc string
 		type chk struct {
 			name   string
